@@ -137,7 +137,8 @@ func (m *SetMon[T]) Check() {
 			alpha = append(alpha, m.D.Val(c.R))
 		}
 	}
-	for _, v := range alpha {
+	for k, off := 0, c.R.Intn(len(alpha)); k < len(alpha); k++ { // no fixed order of observation
+		v := alpha[(k+off)%len(alpha)]
 		want := m.find(v) >= 0
 		if got := m.S.Contains(v); got != want {
 			c.Fail("contains", "single", "%s.Contains(%v) = %v, want %v; members %s", m.Name, v, got, want, short(m.Model))
